@@ -143,8 +143,10 @@ R6 = {
  "C01": "Also: no Go append directly onto the slice of a program array; loop signals are inspected by loop executors only; parameter defaults are evaluated in the function frame at every binding site.",
  "C02": "Also: opcode tables kept in package-level arrays or maps are read like map literals.",
  "C03": "Also: a loop condition is optimised before its body; the if arm invalidates what either branch assigns on every path; the key printer appends no suffix to a key it produced itself.",
- "C04": "Also: a run-time value handed to SetMaxSteps is established positive.",
+ "C04": "Also: a run-time value handed to SetMaxSteps is established positive; the snapshot copier is held to the memo-before-elements clause (C04-R14).",
  "C05": "Also: the method handed to Router.Match derives from no header or query value.",
+ "C06": "Also: the bytecode registered with a declaration is looked up under that declaration's own key.",
+ "C11": "Also: the time-base advance goes through no integer division by the rate.",
  "C07": "Also: the validated object is the one the defaults were filled into; the query text is percent-decoded after it is cut; type-structure walkers in closures and in cmd/glyph are held to the sibling rule.",
  "C08": "Also: builtins and index assignment write no object in place without a test against the module-level environment.",
  "C09": "Also: the snapshot copier hands a container back uncopied only when it is nil and enters it in its memo before visiting its elements.",
@@ -153,7 +155,7 @@ R6 = {
  "C15": "Also: the specialisation cache is invalidated inside the exclusive hold that bumps the invalidation count; every name-keyed table that holds bytecode is written by the invalidators; C03-R13/R14 under C15-R9.",
  "C16": "Also: nothing that can block executes while Room.mu is held.",
  "C18": "Also: both transformer predicates answer true only at the start of a line.",
- "C19": "Also: no mutex is held while a request is handed to the current handler.",
+ "C19": "Also: no mutex is held while a request is handed to the current handler; nothing the running version uses is shut down while the reload can still fail.",
  "C20": "Also: ticker intervals are positive constants or established positive.",
 }
 for _k,_v in R6.items():
